@@ -289,6 +289,12 @@ class BaseCarver(BaseDiscretizer):
             Target of the development dataset, by default ``None``
             Should have the same distribution as y.
         """
+        # a fitted carver is not fitted anew (checked first, so that a refused call modifies nothing)
+        assert not self.is_fitted, (
+            " - [AutoCarver] This Carver has already been fitted. Fitting it anew could break "
+            "established orders. Please initialize a new one."
+        )
+
         # preparing datasets and checking for wrong values
         x_copy, x_dev_copy = self._prepare_data(X, y, X_dev, y_dev)
 
